@@ -214,6 +214,19 @@ func (b *Backend) serve(c *Conn) {
 				resp = b.cfg.Seq[ex.Idx]
 			}
 		}
+		nonceResolved := false
+		if ex.Kind == "proxy" && ex.Nonce != "" {
+			nonceResolved = true
+			ex.Attempt = b.perNonce[ex.Nonce]
+			b.perNonce[ex.Nonce]++
+			if rs, ok := b.cfg.ByNonce[ex.Nonce]; ok && len(rs) > 0 {
+				a := ex.Attempt
+				if a >= len(rs) {
+					a = len(rs) - 1
+				}
+				resp = rs[a]
+			}
+		}
 		b.mu.Unlock()
 
 		if ex.Kind == "proxy" && resp.Fault != nil && (resp.Fault.At == "accept" || resp.Fault.At == "req-read") {
@@ -234,7 +247,7 @@ func (b *Backend) serve(c *Conn) {
 		if ex.Nonce == "" {
 			ex.Nonce = nonceFromBody(body)
 		}
-		if ex.Kind == "proxy" {
+		if ex.Kind == "proxy" && !nonceResolved {
 			b.mu.Lock()
 			ex.Attempt = b.perNonce[ex.Nonce]
 			b.perNonce[ex.Nonce]++
